@@ -86,12 +86,18 @@ TYPES = {
     "Item": ("I::Item", "0u8", ["5u8", "77u8"]),
     "RefItem": ("&'a I::Item", "&0u8", ["&5u8"]),
     "Tup": ("(u8, bool)", "(0u8, false)", ["(1u8, true)"]),
+    # a type parameter WITHOUT a Default bound, instantiated with a type that is not Default: legal for every derive as
+    # long as the parameter only occurs inside types that are Default for any T
+    "OptT": ("Option<T>", "None::<NoDef>", ["Some(NoDef(4))"]),
+    "VecT": ("Vec<T>", "Vec::<NoDef>::new()", ["vec![NoDef(1), NoDef(2)]"]),
 }
 
 # helper items every shard may use
 PRELUDE_TYPES = """
 #[derive(Debug, PartialEq, Clone, Default)]
 pub struct CG<const N: usize>(pub u8);
+#[derive(Debug, PartialEq, Clone)]
+pub struct NoDef(pub u8);
 """
 
 
@@ -288,6 +294,21 @@ GENERICS = {
     "aTw": ("<'a, T>", " where T: Clone + 'a", "::<'static, u8>"),
     "I": ("<I>", " where I: Iterator, I::Item: Clone", "::<std::vec::IntoIter<u8>>"),
     "aI": ("<'a, I: Iterator>", " where I::Item: 'a", "::<'static, std::vec::IntoIter<u8>>"),
+    "Tnd": ("<T>", "", "::<NoDef>"),
+    "NT": ("<const N: usize, T: Default>", "", "::<3, u8>"),
+}
+# other ways of writing the same shape (const parameters before type parameters, a trailing comma after the where clause as
+# rustfmt writes it, bounds moved between the parameter list and the where clause); chosen per enum in EnumSpec.generic_form
+GENERICS_ALT = {
+    "TN": [("<const N: usize, T: Default>", "", "::<3, u8>")],
+    "TNdef": [("<T = u8, const N: usize = 3>", " where T: Default,", "::<u8, 3>")],
+    "Tw": [("<T>", " where T: Default,", "::<u8>"), ("<T>", "\nwhere\n    T: Default,\n", "::<u8>")],
+    "TwU": [("<T, U>", " where T: Default, U: Default + Clone,", "::<u8, String>"), ("<T, U: Clone>", "\nwhere\n    T: Default,\n    U: Default,\n", "::<u8, String>")],
+    "aTwd": [("<'a, T>", " where T: Default + Clone + 'a,", "::<'static, u8>")],
+    "aTw": [("<'a, T>", " where T: Clone + 'a,", "::<'static, u8>"), ("<'a, T: 'a>", " where T: Clone", "::<'static, u8>")],
+    "I": [("<I>", " where I: Iterator, I::Item: Clone,", "::<std::vec::IntoIter<u8>>")],
+    "aI": [("<'a, I: Iterator>", " where I::Item: 'a,", "::<'static, std::vec::IntoIter<u8>>")],
+    "TU": [("<T: Default, U>", " where U: Default,", "::<u8, String>")],
 }
 
 
@@ -340,6 +361,11 @@ class EnumSpec:
     def ty(self):
         return self.path()
 
+    def generic_form(self):
+        import zlib
+        forms = [GENERICS[self.generics]] + GENERICS_ALT.get(self.generics, [])
+        return forms[(zlib.crc32(self.name.encode()) + self.attr_order_seed) % len(forms)]
+
     def render(self):
         lines = []
         ders = list(self.std_derives) + ["%s::%s" % (self.strum_path, d) for d in self.derives]
@@ -362,13 +388,13 @@ class EnumSpec:
             if self.attr_order_seed % 3 == 0:
                 rest.insert(random.Random(self.attr_order_seed).randint(0, len(rest)), "#[allow(dead_code)]")
         lines.extend(rest)
-        decl, where, _ = GENERICS[self.generics]
+        decl, where, inst = self.generic_form()
         lines.append("%s enum %s%s%s {" % (self.vis, self.name, decl, where))
         for v in self.variants:
             lines.append(v.render())
         lines.append("}")
         if self.generics:
-            lines.append("pub type T%s = %s%s;" % (self.name, self.name, GENERICS[self.generics][2].replace("::<", "<")))
+            lines.append("pub type T%s = %s%s;" % (self.name, self.name, inst.replace("::<", "<")))
         src = "\n".join(lines)
         if self.macro_params:
             # the item is produced by a macro_rules! template; some of its tokens arrive as macro arguments
